@@ -98,6 +98,13 @@ CHECKS = {
         "astropy ephemerides/transformations and bundled IERS data trusted; N=0 not generated.",
         "DESIGN.md §4 C13",
     ),
+    "C14": (
+        "exploration",
+        "Hypothesis property-based differential testing of whole compute() runs: seeded runs compared bit for bit across schedulers (synchronous, threads, processes, harness-owned partition order) and repetitions; channel on/off metamorphic relation; structure and cross-stage relations re-derived from an independently re-thrown geometry and the C07/C08 oracles",
+        "Generated cells of the configuration cross product with generated seeds and thrown counts incl. zero-survivor runs. Evidence, not proof; thread interleavings inside a task are not controlled.",
+        "simTime excluded; astropy table I/O trusted.",
+        "DESIGN.md §4 C14",
+    ),
     "C15": (
         "exploration",
         "Hypothesis property-based testing: recursive generation of every configuration field (full Unicode strings, extreme floats, all variants) through the TOML round trip and the in-process command line; hand-written unit table AND astropy's conversion as a double oracle; three-way month reference (must-accept / must-reject / don't-care)",
